@@ -98,7 +98,7 @@ def run(v):
     if n == 0:
         raise ToolError("no protobuf events to validate")
     vlib.lint_trace(tr)
-    tt = run_tlc("C18", "Trace_ProtoSchema", "SPECIFICATION Spec\nCONSTANTS\n  W7 = 7\n  W14 = 14\n  N = 1\nPOSTCONDITION Accepted\nCHECK_DEADLOCK FALSE\n",
+    tt = run_tlc("C18", "Trace_ProtoSchema", "SPECIFICATION Spec\nCONSTANTS\n  W7 = 7\n  W14 = 14\n  N = %d\nPOSTCONDITION Accepted\nCHECK_DEADLOCK FALSE\n" % (3 if v.tier == "quick" else 4),
                  workers=1, env={"TRACE": tr}, deque=True, xss=True, coverage=False, heap="4g")
     lines = open(tr).read().splitlines()
     rejected = 0
@@ -114,7 +114,7 @@ def run(v):
         open(tr, "w").write("\n".join(lines) + "\n")
         if not lines:
             break
-        tt = run_tlc("C18", "Trace_ProtoSchema", "SPECIFICATION Spec\nCONSTANTS\n  W7 = 7\n  W14 = 14\n  N = 1\nPOSTCONDITION Accepted\nCHECK_DEADLOCK FALSE\n",
+        tt = run_tlc("C18", "Trace_ProtoSchema", "SPECIFICATION Spec\nCONSTANTS\n  W7 = 7\n  W14 = 14\n  N = %d\nPOSTCONDITION Accepted\nCHECK_DEADLOCK FALSE\n" % (3 if v.tier == "quick" else 4),
                      workers=1, env={"TRACE": tr}, deque=True, xss=True, coverage=False, heap="4g")
     v.cov["states"] += tt.distinct
     v.cov["transitions"] += tt.generated
@@ -162,7 +162,7 @@ def single_module(d, asn, keep):
     need, todo = set(), list(chosen)
     while todo:                      # helper definitions referenced transitively
         l = todo.pop()
-        for n in re.findall(r"\bN\d+\b", l.split("::=", 1)[1]):
+        for n in re.findall(r"\b[NT]\d+\b", l.split("::=", 1)[1]):     # (a nested type equal to a top-level one is printed by its T name)
             if n not in need:
                 need.add(n)
                 todo.append(byname[n])
